@@ -8,6 +8,15 @@ Line protocol of the `layers` component (C13).
   layers d <kind> <name> <unit> <desc>      → deliveries
   layers r <kind> <name> <labels> <meta>    → deliveries; the returned handle gets the next handle number (0,1,…)
   layers u <handle#> <upd>                  → deliveries
+  layers drop                               → ok     the recorder tree is dropped; handles live on, d / r are bad ops afterwards
+  layers mask <bits>                        → c|g|h|a|panic     what `add_route` makes of a raw `MetricKindMask` value
+  layers cq <t> d|r <…as d / r…>            → ok     queue a client call for thread t (concurrent streams)
+  layers cq <t> u s|o <i> <upd>             → ok     … an update through shared handle i (registered by `layers r`) / own handle i
+  layers crun <T> <sched>                   → done|unfinished <global log>     T threads run the queued calls under the schedule
+                                              (granted thread ids joined by `.`); log = `<t>><base>:<ev>` joined by `;` (raw calls,
+                                              record_many NOT expanded), in real-time order
+  layers cfree <T>                          → per thread `<t>><base>:<ev>;…` joined by `|`: what each thread causes under ANY schedule
+                                              (`conc_complete`)
 
 <tree> is one token, `/`-separated, prefix notation:
   b/<id>                                     base recorder
@@ -39,6 +48,10 @@ open MetricsVerif.Driver MetricsVerif.Layers
 structure St where
   tree : Rec
   handles : List (Kind × Handle) := []
+  /-- the recorder tree has been dropped (handles live on; describe / register are no longer possible) -/
+  dropped : Bool := false
+  /-- queued client calls of the concurrent streams: (thread, call), in queueing order -/
+  queue : List (Nat × Call) := []
 
 def kindTok : String → Option Kind
   | "c" => some .counter | "g" => some .gauge | "h" => some .histogram | _ => none
@@ -224,18 +237,83 @@ def showDeliveriesRle (ds : List (Nat × String)) : String :=
   "|".intercalate (ids.map (fun id =>
     s!"{id}=" ++ ";".intercalate (rle ((ds.filter (·.1 == id)).map (·.2)))))
 
+def evTok : Ev → String
+  | .got b op => s!"{b}:{opEvent op}"
+  | .upd l u => s!"{l.1}:{updEvent l.2 u}"
+
+/-- the client calls queued for thread `t`, in order -/
+def scriptOf (q : List (Nat × Call)) (t : Nat) : List Call := (q.filter (·.1 == t)).map (·.2)
+
+/-- is every update of the script applied to an existing handle of its kind?  (`own` = kinds of the thread's own
+    handles so far) -/
+def scriptOk (shared : List Kind) : List Kind → List Call → Bool
+  | _, [] => true
+  | own, .op o :: cs => scriptOk shared (if o.reg then own ++ [o.kind] else own) cs
+  | own, .upd sh i u :: cs =>
+    (match (if sh then shared else own)[i]? with
+     | some k => decide (k = u.kind)
+     | none => false) && scriptOk shared own cs
+
+def schedTok (s : String) : Option (List Nat) :=
+  if s == "-" then some [] else (s.splitOn ".").mapM (·.toNat?)
+
 def handle (st : Option St) (args : List String) : Option (Option St × String) :=
   match args with
+  | ["drop"] => do
+    let s ← st
+    pure (some { s with dropped := true }, "ok")
+  | ["mask", b] => do
+    let b ← b.toNat?
+    pure (st, match Mask.ofBits b with
+      | some .counter => "c" | some .gauge => "g" | some .histogram => "h" | some .all => "a" | none => "panic")
+  | ["cq", t, "d", k, n, u, d] => do
+    let s ← st
+    if s.dropped then none else
+    let op : Op := { reg := false, kind := ← kindTok k, name := ← unhexChars n, labels := [],
+                     unit := ← unitTok u, desc := ← unhexChars d, metadata := [] }
+    pure (some { s with queue := s.queue ++ [(← t.toNat?, .op op)] }, "ok")
+  | ["cq", t, "r", k, n, l, m] => do
+    let s ← st
+    if s.dropped then none else
+    let op : Op := { reg := true, kind := ← kindTok k, name := ← unhexChars n,
+                     labels := ← listTok (pairTok unhexChars unhexChars) l,
+                     unit := none, desc := [], metadata := ← metaTok m }
+    pure (some { s with queue := s.queue ++ [(← t.toNat?, .op op)] }, "ok")
+  | ["cq", t, "u", src, i, u] => do
+    let s ← st
+    let sh ← (match src with | "s" => some true | "o" => some false | _ => none)
+    pure (some { s with queue := s.queue ++ [(← t.toNat?, .upd sh (← i.toNat?) (← updTok u))] }, "ok")
+  | ["crun", n, sched] => do
+    let s ← st
+    let n ← n.toNat?
+    let sched ← schedTok sched
+    if !(List.range n).all (fun t => scriptOk (s.handles.map (·.1)) [] (scriptOf s.queue t)) then none else
+    if !(s.queue.all (fun c => decide (c.1 < n)) && sched.all (fun t => decide (t < n))) then none else
+    let fin := (Sys.init s.tree (s.handles.map (·.2)) (scriptOf s.queue)).run sched
+    let evs := fin.log.map (fun x => s!"{x.1}>{evTok x.2}")
+    let done := (List.range n).all (fun t => (fin.threads t).finished)
+    pure (some { s with queue := [] }, (if done then "done " else "unfinished ") ++ (if evs.isEmpty then "none" else ";".intercalate evs))
+  | ["cfree", n] => do
+    let s ← st
+    let n ← n.toNat?
+    if !(List.range n).all (fun t => scriptOk (s.handles.map (·.1)) [] (scriptOf s.queue t)) then none else
+    if !(s.queue.all (fun c => decide (c.1 < n))) then none else
+    let per := (List.range n).map (fun t =>
+      let evs := (seqFrom s.tree (s.handles.map (·.2)) [] (scriptOf s.queue t)).map evTok
+      s!"{t}>" ++ (if evs.isEmpty then "none" else ";".intercalate evs))
+    pure (some { s with queue := [] }, "|".intercalate per)
   | ["new", tree] => do
     let r ← treeTok tree
     pure (some { tree := r }, "ok")
   | ["d", k, n, u, d] => do
     let s ← st
+    if s.dropped then none else
     let op : Op := { reg := false, kind := ← kindTok k, name := ← unhexChars n, labels := [],
                      unit := ← unitTok u, desc := ← unhexChars d, metadata := [] }
     pure (some s, showDeliveries ((s.tree.deliver op).map (fun d => (d.1, opEvent d.2))))
   | ["r", k, n, l, m] => do
     let s ← st
+    if s.dropped then none else
     let op : Op := { reg := true, kind := ← kindTok k, name := ← unhexChars n,
                      labels := ← listTok (pairTok unhexChars unhexChars) l,
                      unit := none, desc := [], metadata := ← metaTok m }
